@@ -17,7 +17,7 @@ RULE = ('one trash-rm PATTERN per case over a multi-volume trash with case varia
 ASSUMPTIONS = ['unterminated brackets and the empty pattern are not generated (unspecified by the property)',
                'the matching law itself is a pure function; the simulator contributes the multi-volume on-disk state it is applied to']
 PROBES = ['matched', 'unmatched', 'full-path-pattern', 'bracket-pattern', 'volume-trash-match', 'case-variant-kept',
-          'same-basename-multi-dir', 'original-location-occupied-now']
+          'same-basename-multi-dir', 'original-location-occupied-now', 'payload-that-cannot-be-removed-completely']
 TECHNIQUE = 'deterministic simulation of trash-rm on generated multi-volume trash; removed set compared with an independent glob matcher'
 LEVEL_TEXT = 'seeded exploration of pattern x name-set; set equality between removed pairs and the model matcher; survivors byte-identical'
 LEVEL_NOTE = 'trusted: model/glob.py (backtracking matcher written from the fnmatch documentation), model/bag.py'
@@ -70,7 +70,18 @@ def gen(rng):
     made = TG.populate(rng, L, steps, n=rng.choice([2, 3, 5, 8, 12]), names=names)
     occ = TG.occupy(rng, steps, made, names) if rng.random() < 0.5 else {}
     pat = gen_pattern(rng, names, L['home'])
+    faults = []
+    dirs_made = [m for m in made if any(st_[0] == 'd' and st_[1] == m[0] + '/files/' + m[1] for st_ in steps)]
+    if dirs_made and rng.random() < 0.12:
+        # a trashed directory that holds a sub-directory the user cannot write to (a Go module cache, a tree after chmod -R a-w):
+        # its removal fails half way.  Whatever trash-rm does then, an entry never loses its .trashinfo while payload is left
+        tdir_, nm_, _loc, _d = rng.choice(dirs_made)
+        ro = tdir_ + '/files/' + nm_ + '/ro-sub'
+        steps.append(['d', ro, 0o555])
+        steps.append(['f', ro + '/pinned', 'cannot be unlinked', 0o444])
+        faults.append({'kind': 'cond', 'what': 'dir_not_writable', 'dir': '%RESOLVE%' + ro})
     return {
+        'faults': faults,
         'note': {'occupied': sorted(k for k, v in occ.items() if v != 'sibling-target')},
         'world': {'mounts': L['mounts'], 'steps': steps},
         'procs': [{'argv': ['trash-rm', pat], 'env': L['env'], 'cwd': rng.choice(['/', L['home']]), 'uid': L['uid']}],
@@ -80,6 +91,19 @@ def gen(rng):
 
 def check(sim, case, st):
     sim.setup(case)
+    if case.get('faults'):
+        from model import layout as ML_
+        pre = sim.snap()
+        fixed = []
+        for f in case['faults']:
+            f = dict(f)
+            raw = f['dir'][len('%RESOLVE%'):] if f['dir'].startswith('%RESOLVE%') else f['dir']
+            rd = ML_.resolve(pre, raw)
+            if rd:
+                f['dir'] = rd
+                fixed.append(f)
+        sim.set_faults(fixed)
+        st.probes['payload-that-cannot-be-removed-completely'] += 1
     spec = case['procs'][0]
     if len(spec['argv']) < 2 or spec['argv'][1] == '':
         return []
@@ -94,7 +118,7 @@ def check(sim, case, st):
     snap1 = sim.snap()
     res = []
     nmatch = 0
-    if r.exc is not None:
+    if r.exc is not None and not case.get('faults'):
         res.append(('C12/traceback/%s' % r.exc_frame, 'trash-rm %r raised %s' % (pat, r.exc)))
     bases = {}
     for e in bag0:
@@ -107,7 +131,14 @@ def check(sim, case, st):
         intact = OR.pair_intact(snap0, snap1, e)
         if m:
             nmatch += 1
-        if m and not gone:
+        if m and not gone and case.get('faults') and r.exit != 0:
+            # a removal was bound to fail (read-only sub-directory) and the command reported failure: entries may stay - but
+            # whole: a payload that is still there keeps its .trashinfo
+            real_t = ML_.resolve(snap1, e.tdir) or e.tdir
+            if (real_t + '/files/' + e.name) in snap1 and (real_t + '/info/' + e.name + '.trashinfo') not in snap1:
+                res.append(('C12/info-gone-payload-left/%s' % shape(pat), 'removing %r failed half way (read-only sub-directory) and its .trashinfo is '
+                            'gone while payload is left (exit %s) stderr %s' % (e.location, r.exit, r.errs[-300:])))
+        elif m and not gone:
             res.append(('C12/matching-not-removed/%s' % shape(pat), 'pattern %r matches %r but the entry is still there (exit %s) stderr %s'
                         % (pat, e.location, r.exit, r.errs[-300:])))
         elif not m and not intact:
